@@ -84,6 +84,7 @@ type genState struct {
 	jailed   map[int]bool
 	gone       map[int]bool // validators that withdrew their whole stake
 	taken      map[int]int64 // units of power a validator took back
+	hugeQueue  bool
 	bigTenants []uint64
 	followUps []Event // emitted right after the next begin-block: the actions that would profit from a shadow write
 }
@@ -414,6 +415,13 @@ func (g *genState) manyGenesis() {
 	r := g.r
 	nt := 1 + r.Intn(2)
 	total := 110 + r.Intn(41)
+	huge := r.Chance(25)
+	if huge {
+		// one tenant with more payable records than any per-block budget a maintainer might think of (256), a second
+		// one with a handful: all funded at once
+		nt, total = 2, 265+r.Intn(40)
+	}
+	g.hugeQueue = huge
 	for t := 1; t <= nt; t++ {
 		adm := g.user()
 		denom := tenantDenoms[r.Intn(2)]
@@ -421,7 +429,9 @@ func (g *genState) manyGenesis() {
 		g.h.Genesis.Tenants = append(g.h.Genesis.Tenants, GenTenant{Id: uint64(t), Admins: []int{adm}, Denom: denom, Period: period, Method: "native"})
 		g.tenants = append(g.tenants, genTenant{id: uint64(t), admins: []int{adm}, denom: denom, period: period})
 		n := total / nt
-		if nt == 2 && t == 1 {
+		if huge && t == 1 {
+			n = total - 3
+		} else if nt == 2 && t == 1 {
 			n = 52 + r.Intn(total-104+1) // both queues longer than 50
 		} else if nt == 2 {
 			n = total - (len(g.h.Genesis.Utxrs))
@@ -431,7 +441,7 @@ func (g *genState) manyGenesis() {
 			g.reqCtr++
 			req := fmt.Sprintf("g%d", g.reqCtr)
 			amt := fmt.Sprint(1 + r.Intn(20))
-			if r.Chance(3) {
+			if r.Chance(3) && !huge {
 				amt = fmt.Sprint(500 + r.Intn(1000)) // the one the treasury will be short of
 			}
 			recips := []GenRecip{{Addr: MakeAcct(g.user()).Hex().Hex(), Weight: 1}}
@@ -679,7 +689,12 @@ func (g *genState) block() {
 			}
 		}
 	}
-	if g.p.Many && g.height <= 6 {
+	if g.p.Many && g.hugeQueue && g.height == 1 {
+		for _, t := range g.tenants {
+			envs = append(envs, Env{Kind: "bank_send", From: g.user(), To: -1 - int(t.id), Denom: t.denom, Amount: "20000"})
+		}
+	}
+	if g.p.Many && !g.hugeQueue && g.height <= 6 {
 		// funds arrive in steps: a few hundred units per block and tenant, never enough for the expensive record at once
 		for _, t := range g.tenants {
 			if r.Chance(75) {
